@@ -302,13 +302,38 @@ def linearize_measure_contents(part, start, end, state):
 
     splits.append(end)
     contents = []
+    # position reached by the elements written so far
+    pos = start.t
 
     for i in range(1, len(splits)):
-        contents.extend(
-            linearize_segment_contents(part, splits[i - 1], splits[i], state)
+        # the voices of the previous segment may end before this one starts
+        fb_elements, _ = forward_backup_if_needed(splits[i - 1].t, pos)
+        contents.extend(e for _, _, e in fb_elements)
+        segment_contents = linearize_segment_contents(
+            part, splits[i - 1], splits[i], state
         )
+        contents.extend(segment_contents)
+        pos = written_position(segment_contents, splits[i - 1].t)
 
     return contents
+
+
+def written_position(elements, pos):
+    """
+    The position a reader is at after the elements `elements`, when it was at
+    `pos` before them (notes, except grace and chord notes, and <forward>
+    advance it, <backup> moves it back).
+    """
+    for e in elements:
+        if e.tag == "backup":
+            pos -= int(e.find("duration").text)
+        elif e.tag == "forward":
+            pos += int(e.find("duration").text)
+        elif (
+            e.tag == "note" and e.find("grace") is None and e.find("chord") is None
+        ):
+            pos += int(e.find("duration").text)
+    return pos
 
 
 def remove_voice_polyphony_single(notes, voice_spans):
